@@ -69,8 +69,8 @@ func jobKind(job ssa.Value, st *an.State) string {
 		}
 		if e, ok := src.(*ssa.Extract); ok {
 			if call, ok := e.Tuple.(*ssa.Call); ok {
-				if cc, ok := an.IsCallTo(call, fnCompileCmd); ok {
-					return commandKind(cc.Args[1], st)
+				if _, ok := resolveCmdCompiler(an.CurrentProg).asCall(call); ok {
+					return ccCommandKind(call, st)
 				}
 				if _, ok := an.IsCallTo(call, fnCompileTask); ok {
 					return "command"
@@ -113,6 +113,9 @@ func runEvent(in ssa.Instruction, st *an.State) string {
 	case ssa.CallInstruction:
 		cc := x.Common()
 		name := an.ShortCallee(cc)
+		if call, ok := resolveCmdCompiler(an.CurrentProg).asCall(in); ok {
+			return "compile(" + ccCommandKind(call, st) + ")"
+		}
 		switch name {
 		case fnCtxUp:
 			return "ctx.Up"
@@ -128,8 +131,6 @@ func runEvent(in ssa.Instruction, st *an.State) string {
 			return "output.finish"
 		case fnCompileTask:
 			return "compile(task)"
-		case fnCompileCmd:
-			return "compile(" + commandKind(cc.Args[1], st) + ")"
 		case fnExecIface, fnExecDefault:
 			job := cc.Args[len(cc.Args)-1]
 			return "exec(" + jobKind(job, st) + ")"
@@ -186,7 +187,7 @@ func traceRun(c *an.Ctx, run *ssa.Function, task *ssa.Parameter, row runRow) []r
 		Inline: func(f *ssa.Function) bool {
 			o := an.Outer(f)
 			return o.Pkg == run.Pkg && f != run && an.Short(f) != fnCtxUp && an.Short(f) != fnCtxBefore && an.Short(f) != fnCtxAfter && an.Short(f) != fnCtxDown &&
-				an.Short(f) != fnCompileTask && an.Short(f) != fnCompileCmd
+				an.Short(f) != fnCompileTask && !resolveCmdCompiler(an.CurrentProg).isFn(f)
 		},
 	}
 	errOfEvent := func(v ssa.Value, st *an.State) (string, bool) {
@@ -657,4 +658,20 @@ func orderProblem(ev []string, want map[string]bool) string {
 		}
 	}
 	return ""
+}
+
+// ccCommandKind classifies the command a call of the command compiler is
+// given (the positional argument or the options struct's field).
+func ccCommandKind(call *ssa.Call, st *an.State) string {
+	cc := resolveCmdCompiler(an.CurrentProg)
+	kinds := map[string]bool{}
+	for _, v := range cc.arg(call, "command") {
+		kinds[commandKind(v, st)] = true
+	}
+	if len(kinds) == 1 {
+		for k := range kinds {
+			return k
+		}
+	}
+	return "?"
 }
